@@ -7,7 +7,7 @@ from ..ai.exec import Exec
 from ..ai.invariants import INVARIANTS
 from ..ai.models import M
 from ..ai.values import Enum, Ref, Scalar, Struct
-from ..epath import CFG
+from ..epath import CFG, field_reads_deep
 from .c13 import same_shape
 from .common import get_facts
 
@@ -160,8 +160,7 @@ def check(run, tier):
                 run.obligation(False)
                 run.finding("ANCHOR-MISSING", "%s|%s" % (cfg, name), "impl not found: %s" % name)
                 continue
-            c = CFG(insts[0])
-            r1, r2 = c.field_reads(1), c.field_reads(2)
+            r1, r2 = field_reads_deep(f, insts[0], 1), field_reads_deep(f, insts[0], 2)
             ok = r1 == {ut, ns} and r2 == {ut, ns}
             run.obligation(ok)
             run.sample({"rule": "EQ-ORD-READS", "function": name, "fields read": (sorted(r1), sorted(r2)), "unix_time/nanoseconds field indices": (ut, ns)})
